@@ -31,6 +31,16 @@ Proof.
   rewrite !Z.eqb_refl. reflexivity.
 Qed.
 
+Lemma budget_case_sound i pert : wf_budget i pert = true ->
+  let '(pk, pi, pd) := pert in budget_code pk pi pd i [budget i; budget (perturb pk pi pd i)] = 0.
+Proof.
+  destruct pert as [[pk pi] pd]. unfold wf_budget. intros Hwf.
+  apply andb_true_iff in Hwf. destruct Hwf as [H1 H2].
+  apply andb_true_iff in H1. destruct H1 as [H1 H1']. apply Z.ltb_lt in H1. apply Z.ltb_lt in H1'.
+  apply budget_code_model_any; [exact H1|exact H1'|].
+  apply Forall_forall. intros p Hp. rewrite forallb_forall in H2. apply Z.leb_le. exact (H2 p Hp).
+Qed.
+
 Theorem cases_sound inp : wf_case inp = true -> prop_case inp (run_case inp) = 0.
 Proof.
   unfold wf_case, prop_case, run_case.
@@ -48,7 +58,11 @@ Proof.
     rewrite dec_obs3_encode. rewrite <- Ea. apply adjust_code_model.
     apply nodupb_spec. exact Hwf.
   - (* even *)
-    destruct p as [p|p|]; try discriminate.
+    destruct p as [p|p|].
+    + destruct p as [p|p|]; try discriminate.
+      (* 6: budget over a structured node *)
+      destruct (dec_budget6 l) as [i [[pk pi] pd]]. intros Hwf.
+      exact (budget_case_sound i (pk, pi, pd) Hwf).
     + destruct p as [p|p|]; try discriminate.
       (* 4: quota *)
       intros _. apply quota_code_model.
@@ -59,7 +73,5 @@ Proof.
       rewrite Z.eqb_refl. apply pick_code_model. apply nodupb_spec. exact Hwf.
   - (* 1: budget *)
     destruct (dec_budget l) as [i [[pk pi] pd]]. intros Hwf.
-    apply andb_true_iff in Hwf. destruct Hwf as [H1 H2]. apply Z.ltb_lt in H1.
-    apply budget_code_model_any; [exact H1|].
-    apply Forall_forall. intros p Hp. rewrite forallb_forall in H2. apply Z.leb_le. exact (H2 p Hp).
+    exact (budget_case_sound i (pk, pi, pd) Hwf).
 Qed.
